@@ -167,5 +167,8 @@ theorem flatten_wn (f : Forest) : ∀ o, WN o (flatten o f) := by
   | exec b body rest ihb ihr =>
     intro o
     cases o <;> exact WN.exec _ b _ _ (ihb (some b)) (ihr _)
+  | kw b rest ih =>
+    intro o
+    cases o <;> simpa [flatten, execSteps] using ih _
 
 end DoitModel.Act
